@@ -33,6 +33,7 @@ type named struct {
 func arr(b []byte) (a [32]byte) { copy(a[:], b); return }
 
 func run(c *vf.Ctx) {
+	c.RaceCompanion("the curve25519 functions", "golang.org/x/crypto/curve25519.")
 	c.Rule("full product scalar alphabet x u-coordinate alphabet (see header); per pair: X25519 value/error with scalar and point being 32-byte windows of larger caller buffers that are wiped before the result is compared, an earlier result must survive a later call, ScalarMult into a dirty dst (also with dst aliasing scalar or point), inputs unmodified; " +
 		"every scalar and point once with scalar==point (same slice) and ScalarMult(dst==scalar==point); per scalar one destination array reused without re-initialisation over every point forwards and backwards and for ScalarBaseMult; " +
 		"wrong lengths 0..65 and 32+2^8, 32+2^9, 32+2^16, 32+2^24 for scalar, point and both; " +
